@@ -119,3 +119,17 @@ Definition spec_bool_and (rows : list (option Z)) : option Z :=
   match valid_values rows with [] => None | vs => Some (if forallb (fun x => negb (x =? 0)) vs then 1 else 0) end.
 Definition spec_bool_or (rows : list (option Z)) : option Z :=
   match valid_values rows with [] => None | vs => Some (if existsb (fun x => negb (x =? 0)) vs then 1 else 0) end.
+
+(* ------------------------------------------------------------------ run-end-encoded inputs *)
+(* sum_array / sum_array_checked / min_array / max_array over a (possibly sliced) RunArray:
+   specification only.  A run array is (run_ends, values): run i covers the logical rows
+   [run_ends[i-1], run_ends[i]); logical row k holds the value of the FIRST run whose run end
+   exceeds k.  A slice (off, len) denotes the rows off .. off+len-1.  The aggregate of the run
+   array is the aggregate (specs above) of this logical expansion. *)
+Fixpoint ree_row (run_ends : list Z) (vals : list (option Z)) (k : Z) : option Z :=
+  match run_ends, vals with
+  | e :: re', v :: vs' => if k <? e then v else ree_row re' vs' k
+  | _, _ => None
+  end.
+Definition ree_expand (run_ends : list Z) (vals : list (option Z)) (off : Z) (len : nat) : list (option Z) :=
+  map (fun j => ree_row run_ends vals (off + Z.of_nat j)) (seq 0 len).
